@@ -15,6 +15,7 @@ def to_iter(vm, m, v):
         if isinstance(t, (SliceRef, Iter)): return to_iter(vm, m, t)
         raise VMError('into_iter of ref to %r' % (t,))
     if isinstance(v, Seq): return Iter(v.items)          # Vec<T> / [T; N] by value
+    if isinstance(v, Struct) and v.ty == 'HashMap': return Iter(v.f[0].items)
     if isinstance(v, Struct) and v.ty == 'Range':
         lo, hi = v.f
         if is_sym(lo) or is_sym(hi): raise Unmodelled('symbolic range iterator')
@@ -88,7 +89,15 @@ def dispatch(vm, m, c, args):
                 outs = nxt
             res = []
             for (m1, vals) in outs:
-                if n == 'collect': res.append((m1, 'ret', Seq(vals)))
+                if n == 'collect' and re.search(r'collect::<(std::collections::)?HashMap<', c):
+                    pairs = []
+                    for v in vals:
+                        k = deref_val(vm, m1, v.f[0])
+                        for i, p in enumerate(pairs):
+                            if p.f[0].s == k.s: pairs[i] = Struct((k, v.f[1])); break
+                        else: pairs.append(Struct((k, v.f[1])))
+                    res.append((m1, 'ret', Struct((Seq(pairs),), 'HashMap')))
+                elif n == 'collect': res.append((m1, 'ret', Seq(vals)))
                 elif n == 'count': res.append((m1, 'ret', len(vals)))
                 elif n == 'sum':
                     if vals and isinstance(deref_val(vm, m1, vals[0]), Fl) or 'f64' in c:
